@@ -156,11 +156,11 @@ class C10(Prop):
             return rng.choice(VIAS)
 
         ints = [v for v in int_boundary(quick) if -2**65 <= v <= 2**65]
-        i64 = [v for v in ints if I_MIN <= v <= I_MAX] + [rng.randint(I_MIN, I_MAX) for _ in range(60 if quick else 3000)]
-        u64 = [v for v in ints if 0 <= v <= U_MAX] + [rng.randint(0, U_MAX) for _ in range(60 if quick else 3000)]
+        i64 = [v for v in ints if I_MIN <= v <= I_MAX] + [rng.randint(I_MIN, I_MAX) for _ in range(150 if quick else 3000)]
+        u64 = [v for v in ints if 0 <= v <= U_MAX] + [rng.randint(0, U_MAX) for _ in range(150 if quick else 3000)]
         if quick:
-            i64 = rng.sample(i64, min(len(i64), 160))
-            u64 = rng.sample(u64, min(len(u64), 120))
+            i64 = rng.sample(i64, min(len(i64), 320))
+            u64 = rng.sample(u64, min(len(u64), 240))
         for v in i64:
             cases.append({"kind": "conv", "f": "string", "src": "i", "v": v, "via": via()})
             cases.append({"kind": "conv", "f": "uint", "src": "i", "v": v, "via": via()})
@@ -206,7 +206,7 @@ class C10(Prop):
                  math.nextafter(-2.0**63, 0), math.nextafter(-2.0**63, -math.inf), 2.0**64, math.nextafter(2.0**64, 0), math.nextafter(2.0**64, math.inf),
                  -1e-300, 5e-324, -5e-324, 2.2250738585072014e-308, 1.7976931348623157e308, -1.7976931348623157e308, 1e300, -1e300, 1e19, 1.8446744073709552e19,
                  math.inf, -math.inf, math.nan, 123456789.987654321, -123.456, 0.1, 1e22, 1e23, 9.007199254740993e15, 1e16, 1e-7, 123456.0, 1e-5, 0.0001]
-        for _ in range(80 if quick else 6000):
+        for _ in range(250 if quick else 6000):
             r = rng.random()
             if r < 0.4:
                 dvals.append(dbl(rng.getrandbits(64)))
@@ -223,14 +223,14 @@ class C10(Prop):
         # strings and bytes
         strs = list(GOOD_STRINGS)
         pools = [(0x20, 0x7e), (0xa0, 0x7ff), (0x800, 0xd7ff), (0xe000, 0xffff), (0x10000, 0x10ffff), (0, 0x1f)]
-        for _ in range(60 if quick else 4000):
+        for _ in range(200 if quick else 4000):
             n = rng.choice([1, 1, 2, 3, 5, 8, 20])
             strs.append("".join(chr(rng.randint(*rng.choice(pools))) for _ in range(n)))
         for s in strs:
             cases.append({"kind": "conv", "f": "bytes", "src": "s", "v": s, "via": via()})
             cases.append({"kind": "rt", "rt": "string_bytes", "v": s, "via": via()})
         byts = [bytes.fromhex(h) for h in BAD_UTF8] + [utf8_encode(s) for s in strs[:30]]
-        for _ in range(60 if quick else 4000):
+        for _ in range(200 if quick else 4000):
             r = rng.random()
             if r < 0.4:
                 byts.append(bytes(rng.getrandbits(8) for _ in range(rng.choice([1, 2, 3, 4, 6]))))
@@ -261,7 +261,7 @@ class C10(Prop):
             locs.append(loc_of_fields(y, 12, 31, 23, 59, 59))
             if is_leap(y):
                 locs.append(loc_of_fields(y, 2, 29, 12, 30, 45))
-        for _ in range(100 if quick else 6000):
+        for _ in range(300 if quick else 6000):
             locs.append(rng.randint(0, MAX_LOC) // US_S * US_S)
         for _ in range(30 if quick else 1000):
             locs.append(rng.randint(0, MAX_LOC))          # with microseconds (string() drops them)
@@ -292,7 +292,7 @@ class C10(Prop):
                "2009-02-13T23:31:30+05:60", "2009-02-13T23:31:30+23:60", "2009-02-13T23:31:30+99:00", "2009-04-31T00:00:00Z", "2009-06-31T00:00:00+01:00",
                "2009-02-13T23:31:30.Z", "2009-02-13t23:31:30Z", "2009-02-13T23:31:30z", "", "abc", "2009-02-13T23:31:30Q", "12345-01-01T00:00:00Z",
                "2009-2-13T23:31:30Z", " 2009-02-13T23:31:30Z", "2009-02-13T23:31:30Z ", "10000-01-01T00:00:00Z", "2009-02-13T23:31:30+5:30"]
-        for _ in range(120 if quick else 8000):
+        for _ in range(400 if quick else 8000):
             l = rng.choice(locs) if rng.random() < 0.5 else rng.randint(0, MAX_LOC)
             o = 0 if rng.random() < 0.4 else rng.choice(offs)
             tsx.append(ts_variant(l, o))
